@@ -2,6 +2,7 @@ package props
 
 import (
 	"fmt"
+	"strings"
 
 	structform "github.com/elastic/go-structform"
 
@@ -115,6 +116,30 @@ func c09Families(tier string) []engine.Family {
 			x.Outcome(fmt.Sprint(len(rec.Evs)))
 		}
 	})...)
+	// "the three parsers on accepted input": ANY input a parser accepts - including byte strings no encoder would write -
+	// must come with a well-formed event stream. The byte-string space of C03 (all strings of <= 2 bytes, all strings of <= 4
+	// symbols of the reduced alphabets, hostile length arguments, every single-byte edit of the valid corpus); whatever
+	// Parse (which knows where the input ends) accepts is monitored.
+	for _, f := range c03FamiliesWith("quick", func(x *engine.Exec, cd *Codec, in []byte, fam string, _ [][3]int) {
+		if len(in) > 4096 {
+			return
+		}
+		rec := model.NewRecorder()
+		res := guard(int64(20000+400*len(in)), func() error { return cd.Parse(exact(in), rec) })
+		if res.Bad() || res.Err != nil {
+			return // rejected input: outside C09 (C03-C06 judge that)
+		}
+		x.Count("accepted_inputs_monitored", 1)
+		monitor(x, cd.Name+".Parser", "accepted:"+fam, rec.Evs, false, func() interface{} {
+			return map[string]interface{}{"codec": cd.Name, "hex": hexs(in), "text": trunc(fmt.Sprintf("%q", in), 120), "events": trunc(model.EventsString(rec.Evs), 500)}
+		})
+	}) {
+		if strings.HasPrefix(f.Name, "scaling") {
+			continue
+		}
+		f.Name = "accepted-" + f.Name
+		fams = append(fams, f)
+	}
 	fams = append(fams, engine.Family{Name: "adapters", Body: func(x *engine.Exec) {
 		exts := extAlphabet(tier == "thorough")
 		ev := exts[x.Choose(len(exts))]
